@@ -204,6 +204,29 @@ Theorem C03_no_attribute_twice : forall c, enc_ok c = true -> NoDup (map fst (sh
 Proof. exact names_unique. Qed.
 Print Assumptions C03_no_attribute_twice.
 
+(* ---- subject public key ---- *)
+(* the "Public key" child is computed from the encoded SubjectPublicKeyInfo alone (C03_exactly_expected);
+   its "Size: n bits" is the bit length of the encoded RSA modulus / DSA prime, as a number *)
+Theorem C03_key_size_is_bit_length : forall l, bytes_ok l = true -> bitlen_be l = N.size (be_to_N l).
+Proof. exact bitlen_be_size. Qed.
+Print Assumptions C03_key_size_is_bit_length.
+
+(* ---- presentations: DER / base64 / one PEM block show the certificate itself; a bundle and a
+   keystore show every certificate, in order, each exactly as when inspected alone ---- *)
+Theorem C03_single_block : forall i, present_pem [i] = Ok i.
+Proof. exact present_single. Qed.
+Print Assumptions C03_single_block.
+
+Theorem C03_bundle : forall i j r,
+  present_pem (i :: j :: r) = Ok (Info (bs "multiple PEM blocks") [] (i :: j :: r)).
+Proof. exact present_bundle. Qed.
+Print Assumptions C03_bundle.
+
+Theorem C03_keystore : forall extras certs, length extras = length certs ->
+  map i_children (i_children (present_jks extras certs)) = map (fun c => [c]) certs.
+Proof. exact present_keystore. Qed.
+Print Assumptions C03_keystore.
+
 (* ---- the hypotheses are satisfiable by a content that uses every field ---- *)
 Theorem C03_example_meets_hypotheses : enc_ok example_full = true.
 Proof. exact example_full_ok. Qed.
